@@ -1,15 +1,25 @@
 import YaegiVerif.Model.Method
 /- C05 — what the extractor is expected to read from the pinned source (written by hand from a
-   reading of interp/cfg.go and interp/type.go). -/
+   reading of interp/cfg.go, interp/type.go and interp/run.go). -/
 namespace YaegiVerif.Expected.C05
 open YaegiVerif.Method
 
+/-- since ff01288 ("test the clauses of a switch in source order") the pre-order pass leaves the
+    clause list alone and the post-order pass sends a failed clause to the next clause with a test,
+    the last one to the default clause -/
 def facts : Facts :=
-  { defaultSwap := true,
+  { defaultSwap := false,
+    clauseChain := .nextTest,
     fieldLoopEmbedOnly := false,
     containsNamesOnly := true,
     methodWinsCond := "d >= 0 && d < len(ti) => { goto tryMethods }",
-    ambiguousCond := "d == len(ti)" }
+    ambiguousCond := "d == len(ti)",
+    recvBind := { ptrToVal := .set, valToPtr := .set, same := .set } }
+
+/-- the values the two switch facts had before ff01288 (finding F05-16); only
+    `typeswitch_default_swap_witness` refers to them -/
+def oldDefaultSwap : Bool := true
+def oldClauseChain : Chain := .nextClause
 
 def unrecognised : List String := []
 
@@ -34,10 +44,14 @@ def sourceHashes : List (String × String) :=
    ("getMethodByName", "f50f4b6cbd60d2d3"),
    ("lookupMethodValue", "375ef5678906848e"),
    ("stripReceiverFromArgs", "bb4ae1a98125a1a0"),
+   ("genFunctionWrapper", "2865f1c325015a31"),
    ("typecheck.typeAssertionExpr", "c9bf8687572eccaf"),
    ("genDestValue", "6d332c89aa45b5ab"),
    ("genValueInterface", "ace589b21eb98d0d"),
    ("genValueRecv", "a3dad7fc975e9eb7"),
-   ("cfg.go case selectorExpr", "86bed37595933c73")]
+   ("cfg.go case selectorExpr", "86bed37595933c73"),
+   ("cfg.go pre-order case switchStmt, typeSwitch", "773e4a50ec016090"),
+   ("cfg.go post-order case switchStmt", "dd29a2c95d07e79f"),
+   ("genFunctionWrapper receiver binding", "96e4f6806432f9e4")]
 
 end YaegiVerif.Expected.C05
